@@ -491,7 +491,7 @@ func TestLinkedGraphs(t *testing.T) {
 	if evid.ReplayPath() != "" {
 		t.Skip()
 	}
-	evid.Check(t, "linked-graphs", evid.Scale(3200, 320000), func(t *rapid.T) {
+	evid.Check(t, "linked-graphs", evid.Scale(8000, 320000), func(t *rapid.T) {
 		c := genCase(t)
 		msg, harness, results := evaluate(c)
 		if harness != "" {
@@ -540,6 +540,9 @@ func record(c *Case, results []*runResult) {
 			lbls = append(lbls, "case:shared-"+n)
 		}
 	}
+	if m.reexpUse > 0 {
+		lbls = append(lbls, "case:re-exported-import-of-a-definer-with-function-imports")
+	}
 	if m.lookupImp > 0 {
 		lbls = append(lbls, "case:host-lookup-of-reference-made-from-imported-function")
 	}
@@ -582,6 +585,7 @@ const (
 	findDataFirst   = "C04-data-oob-skips-elems" // fixed in /repo 0aaef3d: the class is generated again, the input stays
 	findAliasGlobal = "C04-compiler-aliased-imported-globals"
 	findLookupImp   = "C04-lookup-imported-funcref"
+	findReexport    = "C04-compiler-reexported-import-wrong-function"
 )
 
 func knownCases() map[string]*Case {
@@ -609,6 +613,15 @@ func knownCases() map[string]*Case {
 				Tables: []TableSpec{{Elem: fr, Min: 2, Max: noMax}},
 				Elems:  []ElemSpec{{Table: 0, Off: Expr{K: "i32"}, Items: []Expr{{K: "func", V: 0}, {K: "func", V: 1}}}}}},
 			Script: append(append([]Step{}, script...), Step{Op: "host", Inst: "m1", Acc: "htl", Idx: 0, Args: []uint64{0}}, Step{Op: "host", Inst: "m1", Acc: "htl", Idx: 0, Args: []uint64{1}}), AllowExcluded: true},
+		// m1 imports m0.f0 and defines f1, f2; m2 imports m1.f2 (its function 0, re-exported as
+		// "f0"); m3 imports m2.f0. Calling it through m2's export (host) and through m3 must reach m1.f2
+		findReexport: {Specs: []*ModSpec{{Name: "m0", Funcs: f3[:1]},
+			{Name: "m1", Imports: []ImportSpec{{Mod: "m0", Name: "f0", Kind: kFunc, Max: noMax}}, Funcs: []FuncSpec{{Sig: 0, ID: 201}, {Sig: 0, ID: 202}}},
+			{Name: "m2", Imports: []ImportSpec{{Mod: "m1", Name: "f2", Kind: kFunc, Max: noMax}}},
+			{Name: "m3", Imports: []ImportSpec{{Mod: "m2", Name: "f0", Kind: kFunc, Max: noMax}}}},
+			Script: append(append([]Step{}, script...), Step{Op: "inst", Spec: 2, As: "m2"}, Step{Op: "inst", Spec: 3, As: "m3"},
+				Step{Op: "acc", Inst: "m2", Acc: "call", Idx: 0}, Step{Op: "host", Inst: "m2", Acc: "hfcall", Idx: 0}, Step{Op: "acc", Inst: "m3", Acc: "call", Idx: 0}),
+			AllowExcluded: true},
 		// m1: (elem (table m0.t0) (i32.const 0) funcref (ref.null func)) must overwrite slot 0 with null
 		findNullItem: {Specs: []*ModSpec{base(), {Name: "m1", Imports: imps,
 			Elems: []ElemSpec{{Table: 0, Off: Expr{K: "i32"}, Items: []Expr{{K: "null"}}}}}}, Script: script, AllowExcluded: true},
@@ -636,7 +649,7 @@ func TestKnownFindings(t *testing.T) {
 		return
 	}
 	cases := knownCases()
-	for _, id := range []string{findNullItem, findOOBElem, findDataFirst, findAliasGlobal, findLookupImp} {
+	for _, id := range []string{findNullItem, findOOBElem, findDataFirst, findAliasGlobal, findLookupImp, findReexport} {
 		c := cases[id]
 		msg := ""
 		for _, e := range wz.Engines {
